@@ -764,6 +764,24 @@ fn to_array(mac: &[u8]) -> Option<[u8; 6]> {
 
 /// Verification hooks (built only with `--cfg erbium_verif`): the two private
 /// helpers that every received packet / every reply goes through.
+/// The largest DHCP message one UDP datagram over IPv4 can carry (65535 - 20 - 8 octets).
+const MAX_UDP4_PAYLOAD: usize = 65507;
+
+/// The Ethernet frame that carries `replybuf` as one UDP datagram, or None when it does not fit in one
+/// (the configuration can select more option data than a datagram holds; the length fields are 16 bits).
+fn reply_frame(
+    src: erbium_net::addr::Inet4Addr,
+    srcmac: &[u8; 6],
+    dst: erbium_net::addr::Inet4Addr,
+    dstmac: &[u8; 6],
+    replybuf: &[u8],
+) -> Option<Vec<u8>> {
+    if replybuf.len() > MAX_UDP4_PAYLOAD {
+        return None;
+    }
+    Some(packet::Fragment::new_udp4(src, srcmac, dst, dstmac, packet::Tail::Payload(replybuf)).flatten())
+}
+
 #[cfg(erbium_verif)]
 pub mod verif {
     pub fn log_options(req: &super::dhcppkt::Dhcp) {
@@ -946,14 +964,23 @@ impl DhcpService {
 
         /* Construct the raw packet from the reply to send */
         let replybuf = reply.serialise();
-        let etherbuf = packet::Fragment::new_udp4(
+        let etherbuf = if let Some(etherbuf) = reply_frame(
             *request.serverip.with_port(67).as_sockaddr_in().unwrap(),
             &srcll,
             dst,
             &chaddr,
-            packet::Tail::Payload(&replybuf),
-        )
-        .flatten();
+            &replybuf,
+        ) {
+            etherbuf
+        } else {
+            log::warn!(
+                "{}: Reply of {} octets does not fit in a UDP datagram, not sent",
+                format_client(&reply),
+                replybuf.len()
+            );
+            DHCP_ERRORS.with_label_values(&["REPLY_TOO_LARGE"]).inc();
+            return;
+        };
 
         if let Err(e) = send_raw(raw, &etherbuf, intf.try_into().unwrap()).await {
             log::warn!("{}: Failed to send reply: {:?}", format_client(&reply), e);
